@@ -1068,6 +1068,12 @@ func harmlessVoid(fn *ssa.Function) bool {
 	return false
 }
 
+// moduleNamed: a named type declared by the module under analysis.
+func (m *mach) moduleNamed(t types.Type) bool {
+	n, ok := t.(*types.Named)
+	return ok && n.Obj().Pkg() != nil && m.c.relPkg(n.Obj().Pkg()) != ""
+}
+
 // opaqueResult: the result of a function outside the model.
 func (m *mach) opaqueResult(fn *ssa.Function, args []mv) mv {
 	res := fn.Signature.Results()
@@ -1643,6 +1649,13 @@ func (m *mach) eval(fr *mframe, v ssa.Value) mv {
 		return m.get(fr, t.X)
 	case *ssa.ChangeType:
 		x := m.get(fr, t.X)
+		// a change between a type the module declares and its underlying type (type floatSource float32) never
+		// changes the value: the symbol is only re-tagged
+		if s, ok := x.(*mSym); ok && s.typ != nil && !types.Identical(s.typ, t.Type()) && (m.moduleNamed(s.typ) || m.moduleNamed(t.Type())) {
+			if _, isBasic := t.Type().Underlying().(*types.Basic); isBasic {
+				return &mSym{name: s.name, nonNil: s.nonNil, typ: t.Type(), rt: s.rt, msg: s.msg}
+			}
+		}
 		if s, ok := x.(*mSym); ok && s.typ != nil && !types.Identical(s.typ, t.Type()) {
 			if _, isBasic := t.Type().Underlying().(*types.Basic); isBasic {
 				q := func(p *types.Package) string { return p.Name() }
